@@ -27,6 +27,7 @@ ERR_TABLE = [
     (r"^Error (constructing|evaluating) definition type", "BadType"),
     (r"^Unexpected definition type", "BadType"),
     (r'^scope ".*" \.call', "BadCall"),
+    (r"^Invalid \.sequential_format", "BadSequentialFormat"),
     (r"^Syntax error: \$ must be followed", "BadVariable"),
     (r'^Syntax error: missing "\)"', "BadVariable"),
     (r"^Syntax error: improper variable name", "BadVariable"),
